@@ -373,6 +373,10 @@ def selections(spec: dict, ents: T.List[dict], rng: random.Random, deep: bool) -
         sels.append({'tags': f'{a},{b}'})
     if spec['sub_rules']:
         sels.append({'skip': rng.choice(['*', 'sp'])})
+        # a skip list that does NOT name the subproject `sp`, only names that contain it / are contained in it
+        sels.append({'skip': rng.choice(['sp-extra', 'xsp', 'my sp', 'sp2, other', 's,p', 'spsp', 'sp*'])})
+        if rng.random() < 0.5:
+            sels.append({'skip': '*', 'bare': True})
         if tags:
             sels.append({'skip': 'sp', 'tags': rng.choice(tags)})
     return sels
@@ -422,8 +426,22 @@ def build_project(spec: dict, R: str) -> T.Tuple[str, str, str]:
 
 def real_install(bld: str, destdir: str, sel: dict, only_changed: bool = False) -> str:
     from mesonbuild import minstall
-    opts = argparse.Namespace(no_rebuild=True, only_changed=only_changed, profile=False, quiet=True, wd=bld, destdir=destdir,
-                              dry_run=False, skip_subprojects=sel.get('skip', ''), tags=sel.get('tags'), strip=False)
+    # through the real command-line parser: meson install -C <bld> --no-rebuild --quiet --destdir <dd> [selection]
+    argv = ['-C', bld, '--no-rebuild', '--quiet', '--destdir', destdir] + (['--only-changed'] if only_changed else [])
+    if sel.get('bare'):
+        argv += ['--skip-subprojects']
+    elif sel.get('skip'):
+        argv += ['--skip-subprojects', sel['skip']]
+    if sel.get('tags') is not None:
+        argv += ['--tags', sel['tags']]
+    try:
+        parser = argparse.ArgumentParser()
+        minstall.add_arguments(parser)
+        opts = parser.parse_args(argv)
+    except BaseException as e:  # noqa: B036
+        if isinstance(e, KeyboardInterrupt):
+            raise
+        return f'argparse {type(e).__name__}: {e}'
     cwd = os.getcwd()
     old = os.umask(0o022)
     os.environ.pop('DESTDIR', None)
